@@ -70,6 +70,11 @@ impl VM {
     /// Reads a u16 value from the current position in the instructions array
     #[inline(always)]
     fn read_u8(&mut self) -> u8 {
+        #[cfg(feature = "verif")]
+        if self.ip >= self.instructions.len() {
+            crate::verif::fault("read_u8");
+            return 0;
+        }
         let v = unsafe { *self.instructions.get_unchecked(self.ip) };
         self.ip += 1;
         v
@@ -78,6 +83,11 @@ impl VM {
     /// Reads a u16 value from the current position in the instructions array
     #[inline(always)]
     fn read_u16(&mut self) -> u16 {
+        #[cfg(feature = "verif")]
+        if self.ip + 2 > self.instructions.len() {
+            crate::verif::fault("read_u16");
+            return 0;
+        }
         let start = self.ip;
         self.ip += 2;
         let bytes = unsafe { self.instructions.get_unchecked(start..self.ip) };
@@ -94,6 +104,18 @@ impl VM {
     /// This function still accounts for 25-35% of runtime right now...
     #[inline(always)]
     fn next(&mut self) -> OpCode {
+        #[cfg(feature = "verif")]
+        match self.instructions.get(self.ip) {
+            None => {
+                crate::verif::fault("fetch");
+                return OpCode::Null;
+            }
+            Some(b) if *b > OpCode::Halt as u8 => {
+                crate::verif::fault("opcode");
+                return OpCode::Null;
+            }
+            _ => (),
+        }
         // Safety: if compiler did its job correctly, IP will always be in bounds
         // Performance: skipping the bounds check yields a 22% performance improvement
         let byte = unsafe { *self.instructions.get_unchecked(self.ip) };
@@ -106,6 +128,11 @@ impl VM {
     /// Performance: -25% over a regular call to `Vec::pop()`
     #[inline(always)]
     fn pop(&mut self) -> Object {
+        #[cfg(feature = "verif")]
+        if self.stack.is_empty() {
+            crate::verif::fault("pop-empty");
+            return Object::null();
+        }
         debug_assert!(!self.stack.is_empty());
 
         // Safety: if the compiler and VM are implemented correctly, the stack will never be empty
@@ -247,6 +274,17 @@ impl VM {
                 }
             }
 
+            #[cfg(feature = "verif")]
+            if let Some(e) = crate::verif::on_step(
+                self.ip,
+                self.instructions.get(self.ip).copied(),
+                self.stack.len(),
+                self.bp as usize,
+                self.frames.len(),
+            ) {
+                return Err(e);
+            }
+
             match self.next() {
                 OpCode::Const => {
                     let idx = self.read_u16();
@@ -344,6 +382,11 @@ impl VM {
                 }
                 OpCode::Call => {
                     let num_args = self.read_u8();
+                    #[cfg(feature = "verif")]
+                    if self.stack.len() < 1 + num_args as usize {
+                        crate::verif::fault("call-base");
+                        continue;
+                    }
                     let base_pointer = self.stack.len() as u16 - 1 - num_args as u16;
                     let obj = self.pop();
                     if obj.tag() != Type::Function {
@@ -353,6 +396,11 @@ impl VM {
                         )));
                     }
                     let [ip, num_locals] = obj.as_function();
+                    #[cfg(feature = "verif")]
+                    if num_locals < num_args as u32 {
+                        crate::verif::fault("call-locals");
+                        continue;
+                    }
 
                     // Make room on the stack for any local variables defined inside this function
                     for _ in 0..num_locals - num_args as u32 {
@@ -369,6 +417,11 @@ impl VM {
                         args.push(self.pop());
                     }
                     args.reverse();
+                    #[cfg(feature = "verif")]
+                    if builtin >= crate::verif::builtin_count() {
+                        crate::verif::fault("builtin-number");
+                        continue;
+                    }
                     let builtin = unsafe { std::mem::transmute::<u8, Builtin>(builtin) };
                     let result = builtins::call(builtin, &args, gc)?;
                     self.push(result);
@@ -376,6 +429,14 @@ impl VM {
                 OpCode::ReturnValue => {
                     let result = self.pop();
                     self.popframe();
+
+                    #[cfg(feature = "verif")]
+                    crate::verif::snapshot(&[
+                        self.stack.as_slice(),
+                        constants.as_slice(),
+                        self.globals.as_slice(),
+                        &[final_result, result],
+                    ]);
 
                     gc.run(&[
                         self.stack.as_slice(),
@@ -388,6 +449,14 @@ impl VM {
                 }
                 OpCode::Return => {
                     self.popframe();
+
+                    #[cfg(feature = "verif")]
+                    crate::verif::snapshot(&[
+                        self.stack.as_slice(),
+                        constants.as_slice(),
+                        self.globals.as_slice(),
+                        &[final_result],
+                    ]);
 
                     gc.run(&[
                         self.stack.as_slice(),
@@ -439,6 +508,14 @@ impl VM {
                 }
             }
         }
+    }
+}
+
+#[cfg(feature = "verif")]
+impl VM {
+    /// Lengths of the operand stack and the frame stack, and a copy of the globals
+    pub fn verif_state(&self) -> (usize, usize, Vec<Object>) {
+        (self.stack.len(), self.frames.len(), self.globals.clone())
     }
 }
 
